@@ -5,5 +5,9 @@ CONSTANTS MaxOps = 4
   GScales <- ScalesSmall
   Targets <- TargetsSeq
   Patterns = {1}
+PROPERTY ScaleExact
+PROPERTY UnknownScaleRaises
+PROPERTY GetScalePure
+PROPERTY RoundTrip
 INVARIANT Emitted
 CHECK_DEADLOCK FALSE
